@@ -10,7 +10,7 @@ PROPERTY = {
     'id': 'C05',
     'technique': 'CrossHair symbolic execution of two related builds per path (metamorphic, no oracle): documents with symbolic delete/priority flags vs. the same documents wrapped under a key chain / with a sibling subtree changed; z3 decides the equality of both results for all flag values on every path',
     'assumptions': [
-        'metadata codec stub for !metadata:sK sites (native replays use the real pickle codec)',
+        'metadata codec stub for !metadata:<token> sites (native replays use the real pickle codec)',
         'document family = the C04 family (older content x newer node) incl. falsy leaves and ancestor-named keys',
     ],
     'bounds': {'wrapping chains': "['x'], ['p'], ['w','p'], ['z','x'], ['n','w'] (keys that also occur inside the documents)",
